@@ -331,3 +331,152 @@ impl Scenario for RaceScan {
         out
     }
 }
+
+/// S-RACE with imports: 2-3 documents in different directories are (re)analysed concurrently and each of them
+/// imports the SAME helper module, which the index has not seen yet (it exists on disk only).  Whoever follows
+/// the import first, the helper must end up indexed exactly once: the outcome must equal a sequential execution.
+pub struct RaceImports;
+
+#[derive(Clone, Debug, Serialize, Deserialize)]
+pub struct RaceImportsInput {
+    pub sim: SimParams,
+    /// (relative path, text) written to disk before the run
+    pub disk: Vec<(String, String)>,
+    /// analysed sequentially before the race
+    pub initial: Vec<String>,
+    /// analysed concurrently: (relative path, buffer text)
+    pub concurrent: Vec<(String, String)>,
+    pub run_seed: u64,
+    #[serde(default)]
+    pub sandbox: Option<String>,
+}
+
+impl Scenario for RaceImports {
+    fn name(&self) -> &'static str {
+        "race-imports"
+    }
+    fn rule(&self) -> &'static str {
+        "2-3 simulated threads each run analyze_file on a conftest/test module of their own directory; all of them import (star, explicit or \
+         pytest_plugins, possibly through a second helper) the same helper module that exists on disk and is not indexed yet; dense preemption; \
+         the index as multisets must equal that of some sequential order; non-trivial = the schedule switched threads and >= 2 documents import \
+         the shared helper; distinct = (input hash, decision-list hash)"
+    }
+    fn runs(&self, tier: Tier) -> u64 {
+        match tier {
+            Tier::Quick => 2_500,
+            Tier::Thorough => 150_000,
+        }
+    }
+    fn shrink_paths(&self) -> Vec<&'static str> {
+        vec!["/concurrent", "/initial", "/decisions/0"]
+    }
+    fn gen(&self, run_seed: u64, _tier: Tier) -> Value {
+        let mut rng = Rng::new(run_seed);
+        let names = names_pool(3);
+        let opts = GenOpts { in_class: false, ..GenOpts::default() };
+        let mut disk = vec![];
+        let helper = render(&gen_items(&mut rng, &names, false, &opts)).text;
+        disk.push(("shared_helper.py".to_string(), helper));
+        let chained = rng.chance(400);
+        if chained {
+            disk.push(("mid_helper.py".to_string(), format!("from shared_helper import *\n{}", render(&gen_items(&mut rng, &names, false, &opts)).text)));
+        }
+        let dirs = ["a", "b", "c"];
+        let k = rng.range(2, 3);
+        let mut concurrent = vec![];
+        for d in dirs.iter().take(k) {
+            let target = if chained && rng.chance(500) { "mid_helper" } else { "shared_helper" };
+            let imp = match rng.below(3) {
+                0 => format!("from {} import *\n", target),
+                1 => format!("from {} import {}\n", target, names[0]),
+                _ => format!("pytest_plugins = [\"{}\"]\n", target),
+            };
+            let is_test = rng.chance(400);
+            let body = render(&gen_items(&mut rng, &names, is_test, &opts)).text;
+            let rel = if is_test { format!("{}/test_{}.py", d, d) } else { format!("{}/conftest.py", d) };
+            // what is on disk differs from the buffer (no import yet)
+            disk.push((rel.clone(), "import pytest\n".to_string()));
+            concurrent.push((rel, format!("{}{}", imp, body)));
+        }
+        let initial = if rng.chance(300) { vec![concurrent[0].0.clone()] } else { vec![] };
+        let sim = SimParams::dense(&mut rng, 2000);
+        serde_json::to_value(RaceImportsInput { sim, disk, initial, concurrent, run_seed, sandbox: None }).unwrap()
+    }
+    fn exec(&self, input: &Value) -> RunOut {
+        let mut out = RunOut::default();
+        let inp: RaceImportsInput = match serde_json::from_value(input.clone()) {
+            Ok(i) => i,
+            Err(e) => {
+                out.harness_error = Some(format!("bad input: {}", e));
+                return out;
+            }
+        };
+        if inp.concurrent.len() < 2 {
+            return out;
+        }
+        let sb = super::util::Sandbox::acquire("c09i", inp.run_seed, inp.sandbox.as_deref().map(Path::new));
+        let root = sb.root().join("ws");
+        for (f, t) in &inp.disk {
+            let p = root.join(f);
+            if let Some(d) = p.parent() {
+                let _ = std::fs::create_dir_all(d);
+            }
+            let _ = std::fs::write(&p, t);
+        }
+        let disk_text = |f: &str| inp.disk.iter().find(|(g, _)| g == f).map(|(_, t)| t.clone()).unwrap_or_default();
+        let mut seq: Vec<MapSnap> = vec![];
+        for perm in permutations(inp.concurrent.len()) {
+            let db = FixtureDatabase::new();
+            for f in &inp.initial {
+                db.analyze_file(root.join(f), &disk_text(f));
+            }
+            for &i in &perm {
+                db.analyze_file(root.join(&inp.concurrent[i].0), &inp.concurrent[i].1);
+            }
+            seq.push(map_snap(&db, &root));
+        }
+        let conc = inp.concurrent.clone();
+        let initial: Vec<(String, String)> = inp.initial.iter().map(|f| (f.clone(), disk_text(f))).collect();
+        let r2 = root.clone();
+        let (oc, snap) = simrt::run(inp.sim.cfg(replay_list(input, 0)), move || {
+            let db = Arc::new(FixtureDatabase::new());
+            for (f, t) in &initial {
+                db.analyze_file(r2.join(f), t);
+            }
+            let mut hs = vec![];
+            for (f, t) in conc {
+                let d = db.clone();
+                let p = r2.join(&f);
+                hs.push(simrt::spawn(move || d.analyze_file(p, &t)));
+            }
+            for h in hs {
+                h.join();
+            }
+            map_snap(&db, &r2)
+        });
+        out.absorb_outcome(&oc);
+        out.nontrivial = oc.switches > 0;
+        let mut dh = 0u64;
+        for d in &oc.decisions {
+            dh = mix(dh, *d as u64);
+        }
+        out.fingerprint = mix(fnv(&serde_json::to_string(&(&inp.disk, &inp.concurrent)).unwrap()), dh);
+        if let Some(a) = &oc.abort {
+            super::scen_resolve::abort_to_violation(&mut out, a, "concurrent analyses following a shared import");
+            return out;
+        }
+        let Some(snap) = snap else {
+            out.harness_error = Some("no snapshot".into());
+            return out;
+        };
+        out.state_hash = snap.hash();
+        out.count("probe.documents_importing_the_unseen_helper", inp.concurrent.len() as u64);
+        if let Some(c) = snap.consistency() {
+            out.violate("race-dangling", format!("index inconsistent after concurrent analyses: {}", c));
+        }
+        if !seq.iter().any(|s| s.diff(&snap, false).is_none()) {
+            out.violate("race-not-sequential", format!("concurrent outcome equals no sequential execution; vs first order: {}", seq[0].diff(&snap, false).unwrap_or_default()));
+        }
+        out
+    }
+}
